@@ -76,7 +76,8 @@ class BitStore:
                 # Most methods work on the whole of the bitarray, so if only part of the buffer is wanted
                 # then that part is read into memory rather than being a view on the whole buffer.
                 x._bitarray = x._bitarray[:x.modified_length]
-                x.modified_length = None
+            # The bitarray now holds exactly the bits that are wanted.
+            x.modified_length = None
         return x
 
     def setall(self, value: int, /) -> None:
